@@ -27,6 +27,7 @@
 
 pub mod batch;
 pub mod consolidate;
+pub mod lossless;
 pub mod wal;
 
 pub use batch::{Batch, BatchRef, ShardInfo, ShardMeta, Update};
@@ -45,7 +46,7 @@ use std::path::PathBuf;
 use std::sync::atomic::{AtomicU64, Ordering};
 
 // Parquet I/O for batches
-use arrow::array::{ArrayRef, Int64Array, UInt64Array};
+use arrow::array::{Array, ArrayRef, BinaryArray, Int64Array, UInt64Array};
 use arrow::datatypes::{DataType as ArrowDataType, Field, Schema};
 use arrow::record_batch::RecordBatch;
 use parquet::arrow::arrow_reader::ParquetRecordBatchReaderBuilder;
@@ -688,6 +689,24 @@ fn infer_schema_from_updates(updates: &[Update]) -> TupleSchema {
     TupleSchema::new(fields)
 }
 
+/// Name of the single data column used when tuples are stored in the lossless opaque encoding.
+const OPAQUE_TUPLE_COLUMN: &str = "__tuple_lossless";
+
+/// True if decoding the typed Arrow columns yields exactly the tuples that were encoded
+/// (same value kinds, same bits).
+fn typed_encoding_is_exact(batch: &RecordBatch, tuples: &[Tuple]) -> bool {
+    match record_batch_to_tuples(batch) {
+        Ok((decoded, _)) => {
+            decoded.len() == tuples.len()
+                && decoded
+                    .iter()
+                    .zip(tuples)
+                    .all(|(a, b)| lossless::same_bits(a, b))
+        }
+        Err(_) => false,
+    }
+}
+
 /// Write updates to a Parquet file
 ///
 /// The file format is:
@@ -707,23 +726,42 @@ fn write_updates_parquet(path: &PathBuf, updates: &[Update]) -> StorageResult<()
     // Extract tuples for conversion
     let tuples: Vec<Tuple> = updates.iter().map(|u| u.data.clone()).collect();
 
-    // Convert tuples to record batch
-    let data_batch = tuples_to_record_batch(&tuples, &tuple_schema)
-        .map_err(|e| StorageError::Other(format!("Arrow conversion error: {e}")))?;
+    // Convert tuples to typed Arrow columns. The column types are inferred from the first
+    // tuple, so this encoding is only used when it reproduces every tuple exactly; a relation
+    // that mixes value kinds within a column (or holds Null / Timestamp columns, which do not
+    // round-trip through the inferred schema) is stored in the lossless opaque encoding instead.
+    let typed_batch = tuples_to_record_batch(&tuples, &tuple_schema)
+        .ok()
+        .filter(|batch| typed_encoding_is_exact(batch, &tuples));
+
+    let (mut fields, mut columns): (Vec<Field>, Vec<ArrayRef>) = match typed_batch {
+        Some(data_batch) => (
+            data_batch
+                .schema()
+                .fields()
+                .iter()
+                .map(|f| f.as_ref().clone())
+                .collect(),
+            data_batch.columns().to_vec(),
+        ),
+        None => {
+            let encoded: Vec<Vec<u8>> = tuples.iter().map(lossless::encode_tuple).collect();
+            let column = BinaryArray::from_iter_values(encoded.iter().map(Vec::as_slice));
+            (
+                vec![Field::new(
+                    OPAQUE_TUPLE_COLUMN,
+                    ArrowDataType::Binary,
+                    false,
+                )],
+                vec![Arc::new(column) as ArrayRef],
+            )
+        }
+    };
 
     // Build full schema with time and diff columns
-    let mut fields: Vec<Field> = data_batch
-        .schema()
-        .fields()
-        .iter()
-        .map(|f| f.as_ref().clone())
-        .collect();
     fields.push(Field::new("time", ArrowDataType::UInt64, false));
     fields.push(Field::new("diff", ArrowDataType::Int64, false));
     let full_schema = Arc::new(Schema::new(fields));
-
-    // Build columns array
-    let mut columns: Vec<ArrayRef> = data_batch.columns().to_vec();
 
     // Add time and diff columns
     let times: Vec<u64> = updates.iter().map(|u| u.time).collect();
@@ -823,12 +861,26 @@ fn read_updates_parquet(path: &PathBuf) -> StorageResult<Vec<Update>> {
             continue;
         }
 
-        let data_batch =
-            RecordBatch::try_new(data_schema, data_columns).map_err(StorageError::Arrow)?;
+        // Lossless opaque encoding: a single binary column holding one encoded tuple per row
+        let opaque = (data_columns.len() == 1
+            && data_schema.field(0).name() == OPAQUE_TUPLE_COLUMN)
+            .then(|| data_columns[0].as_any().downcast_ref::<BinaryArray>())
+            .flatten();
 
-        // Convert data batch back to tuples
-        let (tuples, _) = record_batch_to_tuples(&data_batch)
-            .map_err(|e| StorageError::Other(format!("Arrow conversion error: {e}")))?;
+        let tuples = if let Some(encoded) = opaque {
+            (0..encoded.len())
+                .map(|i| lossless::decode_tuple(encoded.value(i)))
+                .collect::<Result<Vec<Tuple>, String>>()
+                .map_err(|e| StorageError::Other(format!("Corrupt batch file: {e}")))?
+        } else {
+            let data_batch =
+                RecordBatch::try_new(data_schema, data_columns).map_err(StorageError::Arrow)?;
+
+            // Convert data batch back to tuples
+            record_batch_to_tuples(&data_batch)
+                .map_err(|e| StorageError::Other(format!("Arrow conversion error: {e}")))?
+                .0
+        };
 
         // Combine with time and diff
         for (i, tuple) in tuples.into_iter().enumerate() {
@@ -878,6 +930,34 @@ mod tests {
         };
         let persist = FilePersist::new(config).unwrap();
         (temp, persist)
+    }
+
+    #[test]
+    fn test_flush_preserves_mixed_value_kinds() {
+        use std::sync::Arc as StdArc;
+        let (_temp, persist) = create_test_persist();
+        let tuples = vec![
+            Tuple::new(vec![Value::Null, Value::Timestamp(5)]),
+            Tuple::new(vec![Value::Int32(1), Value::String(StdArc::from("a"))]),
+            Tuple::new(vec![Value::String(StdArc::from("b")), Value::Int64(2)]),
+            Tuple::new(vec![
+                Value::Float64(f64::NAN),
+                Value::Vector(StdArc::new(vec![1.0, -0.0])),
+            ]),
+        ];
+        let updates: Vec<Update> = tuples
+            .iter()
+            .enumerate()
+            .map(|(i, t)| Update::insert(t.clone(), 10 + i as u64))
+            .collect();
+        persist.ensure_shard("db:mixed").unwrap();
+        persist.append("db:mixed", &updates).unwrap();
+        persist.flush("db:mixed").unwrap();
+        let read = persist.read("db:mixed", 0).unwrap();
+        assert_eq!(read.len(), tuples.len());
+        for (u, t) in read.iter().zip(&tuples) {
+            assert!(lossless::same_bits(&u.data, t), "{:?} != {:?}", u.data, t);
+        }
     }
 
     #[test]
